@@ -45,16 +45,7 @@ def pyStrTables : PyStr where
   lower s := s.flatMap lowerCp
   isSpace c := inRangesArr RTV.Gen.spaceRanges c
 
-def zhCn : Str := [122, 104, 45, 99, 110]
-
-def genCfg (repaired : Bool) : Cfg where
-  py := pyStrTables
-  supported := RTV.Gen.supportedCultures
-  fallback := RTV.Gen.fallbackCulture
-  chinese := zhCn
-  regs k := RTV.Gen.registrations.getD k []
-  optRange k := RTV.Gen.optionRanges.getD k (0, -1)
-  repaired := repaired
+def drvCfg (repaired : Bool) : Cfg := genCfg pyStrTables repaired
 
 def parseOptStr (f : String) : Option Str := if f == "none" then none else some (parseCps f)
 def showOptStr : Option Str → String
@@ -92,12 +83,12 @@ def hHist : Handler
   | r :: ops =>
     match ops.mapM parseOp with
     | none => "bad-op"
-    | some l => ";".intercalate ((run (genCfg (parseBool r)) State.init l).2.map showOut)
+    | some l => ";".intercalate ((run (drvCfg (parseBool r)) State.init l).2.map showOut)
   | _ => "bad-op"
 
 def hRoute : Handler
   | [r, op] =>
-    let cfg := genCfg (parseBool r)
+    let cfg := drvCfg (parseBool r)
     match parseOp op with
     | none => "bad-op"
     | some o =>
